@@ -12,7 +12,7 @@ RULE = ('process grids x the three 4-D layouts (and both 3-D layouts for phi) x 
         'that step; an evaluation is one (grid, layout, field, quantity); non-trivial = more than one rank and a non-constant field')
 ASSUMPTIONS = ['simmpi reductions (combination order supplied by the check)', 'tolerance 1e-12 relative for sums, exact for min/max and time stamps']
 
-NPTS = [6, 8, 12, 9]          # n//p differs between r, v and z for p = 2 and 3 (block offsets of different dimensions never coincide)
+NPTS = [7, 8, 11, 9]          # uneven blocks for 2 and 3 processes in r, z and v; n//2 differs between the three
 
 
 def cases(tier, seed):
@@ -39,7 +39,7 @@ def _plotminmax(case, V, st):
     MPI = sim.setup()
     from pygyro.initialisation.setups import setupCylindricalGrid
     size, draw = case['size'], case['draw']
-    mm_cases = [(None, None), (0, 2), (3, 1), (2, 6), ([0, 3], [2, 1]), ([1, 2], [7, 0]), (1, 0), (0, 0), ([0], [0]), (np.int64(0), np.int64(0)), ([0, 1], [0, 0])]      # incl. falsy axis / index
+    mm_cases = [(None, None), (0, 2), (3, 1), (2, 6), ([0, 3], [2, 1]), ([1, 2], [7, 0]), (1, 0), (0, 0), ([0], [0]), (np.int64(0), np.int64(0)), ([0, 1], [0, 0]), (0, 5), (3, 7), (2, 9), ([0, 3], [6, 8]), ([2, 0], [10, 4])]      # incl. falsy axis / index and indices in the later (longer) blocks
     I = np.indices(NPTS)
     # all values positive in one field and all negative in the other: a neutral element of the wrong sign would win
     FS = [('positive', 2.0 + np.sin(1 + I[0] * 1.3 + I[1] * 0.7 + I[2] * 2.1 + I[3] * 0.9)), ('negative', -3.0 + np.cos(2 + I[0] * 0.3 + I[1] * 1.7 + I[2] * 1.1 + I[3] * 0.4))]
@@ -133,7 +133,7 @@ def _norms(case, V, st):
     fields = _fields(NPTS, cplx=cplx)
     if cplx:
         fields = [(n, F * (1 - 0.75j) if n != 'complex' else F) for n, F in fields]         # every field gets an imaginary part
-    mm_cases = [(None, None), (0, 2), (3, 1), (2, 6), ([0, 3], [2, 1]), ([1, 2], [7, 0]), (1, 0), (0, 0), ([0], [0]), (np.int64(0), np.int64(0)), ([0, 1], [0, 0])]      # incl. falsy axis / index
+    mm_cases = [(None, None), (0, 2), (3, 1), (2, 6), ([0, 3], [2, 1]), ([1, 2], [7, 0]), (1, 0), (0, 0), ([0], [0]), (np.int64(0), np.int64(0)), ([0, 1], [0, 0]), (0, 5), (3, 7), (2, 9), ([0, 3], [6, 8]), ([2, 0], [10, 4])]      # incl. falsy axis / index and indices in the later (longer) blocks
 
     def fn(r):
         g, c, t = setupCylindricalGrid(layout=lay, npts=list(NPTS), comm=MPI.COMM_WORLD, zMin=7.0, vMin=-6.1, rMin=0.3, dtype=(np.complex128 if cplx else float))
